@@ -147,6 +147,10 @@ where
     let mut done = vec![false; n];
     let mut det = IdleDetector::new();
     let mut blocked = Vec::new();
+    // back-stop for the case that the idle criterion can never be met (e.g. /proc unreadable):
+    // 20 minutes without any progress anywhere ends the wait as inconclusive, never as a verdict
+    let mut stalled_samples = 0u32;
+    let mut last_progress = u64::MAX;
     loop {
         if done.iter().all(|d| *d) {
             break;
@@ -166,6 +170,16 @@ where
             }
             Err(mpsc::RecvTimeoutError::Timeout) => {
                 let progress: u64 = slots.iter().map(|s| s.progress.load(Ordering::Relaxed)).sum();
+                if progress == last_progress {
+                    stalled_samples += 1;
+                } else {
+                    stalled_samples = 0;
+                    last_progress = progress;
+                }
+                if stalled_samples >= 1200 {
+                    st.inconclusive("no shard made progress for 20 minutes although the process was not idle: undecided (machine overloaded or watchdog blind)");
+                    break;
+                }
                 if det.sample(progress) {
                     for (i, d) in done.iter().enumerate() {
                         if !*d {
